@@ -6,11 +6,15 @@ use oal_compiler::spec;
 use oal_compiler::spec::SchemaExpr;
 use oal_syntax::atom;
 use openapiv3::*;
+use std::cell::RefCell;
+use std::collections::HashSet;
 use std::iter::once;
 
 pub struct Builder {
     spec: spec::Spec,
     base: Option<OpenAPI>,
+    /// The components that the document refers to so far.
+    used: RefCell<HashSet<atom::Ident>>,
 }
 
 type Headers = IndexMap<String, ReferenceOr<Header>>;
@@ -24,7 +28,11 @@ impl From<Builder> for OpenAPI {
 
 impl Builder {
     pub fn new(spec: spec::Spec) -> Builder {
-        Builder { spec, base: None }
+        Builder {
+            spec,
+            base: None,
+            used: Default::default(),
+        }
     }
 
     pub fn with_base(mut self, base: OpenAPI) -> Self {
@@ -269,6 +277,7 @@ impl Builder {
         if let Some(s) = self.maybe_inline(name) {
             self.value_schema(s)
         } else {
+            self.used.borrow_mut().insert(name.clone());
             ReferenceOr::Reference {
                 reference: format!("#/components/schemas/{}", name.untagged()),
             }
@@ -595,13 +604,27 @@ impl Builder {
     }
 
     fn all_components(&self) -> Components {
-        let mut schemas = IndexMap::new();
-        for (name, spec::Reference::Schema(s)) in self.spec.refs.iter() {
-            // Only keep components that couldn't be inlined.
-            if self.maybe_inline(name).is_none() {
-                schemas.insert(name.untagged(), self.schema(s));
+        // Explicit references are always kept. Implicit ones (recursion points) are kept
+        // only if the paths or another kept component refer to them: evaluating an
+        // expression whose value is dropped must not leave a component behind.
+        let mut kept = IndexMap::new();
+        loop {
+            let more: Vec<_> = (self.spec.refs.iter())
+                .filter(|(name, _)| !kept.contains_key(*name))
+                // Only keep components that couldn't be inlined.
+                .filter(|(name, _)| self.maybe_inline(name).is_none())
+                .filter(|(name, _)| name.is_reference() || self.used.borrow().contains(*name))
+                .collect();
+            if more.is_empty() {
+                break;
+            }
+            for (name, spec::Reference::Schema(s)) in more {
+                kept.insert(name, self.schema(s));
             }
         }
+        let schemas = (self.spec.refs.keys())
+            .filter_map(|name| kept.swap_remove(name).map(|s| (name.untagged(), s)))
+            .collect();
         Components {
             schemas,
             ..Default::default()
